@@ -121,6 +121,12 @@ def explore(fn, timeout=60.0, per_path_timeout=20.0, known=None, max_samples=1):
         except sym.Inconclusive as e:
             out["inconclusive"] = f"Inconclusive: {e}"
             raise UnexploredPath() from None
+        except TypeError as e:
+            # a numpy ufunc without a model met a symbolic value (object dtype): an engine limit, never a verdict
+            if "not supported for the input types" in str(e):
+                out["inconclusive"] = f"Inconclusive: numpy ufunc without a symbolic model: {str(e)[:120]}"
+                raise UnexploredPath() from None
+            raise
 
     def realise_failure(aspect, detail):
         inputs = {}
